@@ -388,8 +388,8 @@ func (s *Sub[C]) one(col *collector, c C) error {
 	}
 	if s.Journal {
 		journal(s.Name, raw)
-		curCase.Store(raw)
 	}
+	curCase.Store(raw)
 	journalName.Store(s.Name)
 	caseStart.Store(time.Now().UnixNano())
 	r := &R{}
